@@ -51,7 +51,14 @@ MANIFEST = {
             "layouts) as the same value, same key order, every scalar with its tag; the structural layer needs no hypothesis, the text layer is defined "
             "whenever no str is multi-line or folded and every key is a simple key. C01_json_doc_roundtrip_partial: the same for json and json_indented "
             "read back by the YAML loader, for str keys, strings without DEL/C1/U+2028/U+2029/U+FFFE/U+FFFF, finite floats and key literals of at most 1024 "
-            "characters; each excluded class is an open finding with a kernel-checked counterexample (C01-json-long-key is new). The dump configuration the "
+            "characters; each excluded class is an open finding with a kernel-checked counterexample (C01-json-long-key is new). Strings with a line break that PyYAML writes double-quoted (blank next to a "
+            "break, TAB, special character) are inside the model (C01_multiline_style, C01_emitScalar_defined_multiline); single-quoted multi-line output is "
+            "not. Composition (C01_typed_roundtrip_partial / _json_partial): for every type of the sub-grammar of C10_ser_adapt_roundtrip and every value the "
+            "adapter returns, adapt(constructors(loadDoc(emitDoc(toV(ser t w))))) = w, with the embedding toV/ofV of the adapter's plain values into document "
+            "values proved to commute (hence injective); the int/float text codec is a parameter whose law is required on the numbers that occur. "
+            "skip_default: delKV is _dump_delete_default_entries on plain nested dicts, reparse the merge-groups / replace-leaves re-parse; "
+            "C01_skip_default_roundtrip_partial proves reparse(dumped) = cfg whenever no dict-valued leaf shares an entry with its default (the open finding is "
+            "the kernel-checked witness), corresponded with the real reduction, parse_object and dump/parse_string. The dump configuration the "
             "models hard-code is pinned to the extracted one (C01_tie_dump_configuration). The automata and the dump kwargs are regenerated on every run from "
             "the live classes; the typed<->plain layer (ser/adapt) belongs to C02/C10; the whole property is evaluated end to end on generated real parsers "
             "and on generated documents through the three formats.",
@@ -791,7 +798,7 @@ def run(ctx: Ctx):
         if not res.accepted:
             raise MachineryError("corpus case is no longer accepted: %s (%s)" % (c.get("name"), res.reject_reason))
         ctx.nontrivial("e:" + json.dumps(c["case"], sort_keys=True, default=repr))
-    n_seed = ctx.budget(300, 3000) * boost(3)
+    n_seed = ctx.budget(220, 3000) * boost(3)
     accepted = 0
     for i in range(n_seed):
         if enough(ctx):
@@ -806,7 +813,7 @@ def run(ctx: Ctx):
                 ctx.sample({"spec": [(a["name"], E.type_shape(a["type"])) for a in case["spec"]["args"]], "obj": case["obj"]})
     lap("e2e_corpus_and_seed_driven")
     # wider exploration with a fixed internal seed (known-finding classes allowed; anything else is a violation)
-    n_wide = ctx.budget(200, 2200) * boost(3)
+    n_wide = ctx.budget(140, 2200) * boost(3)
     for i in range(n_wide):
         if enough(ctx):
             break
